@@ -396,6 +396,17 @@ func runHarness(prog *ssa.Program, cfg *HarnessCfg, knownOpen map[string]bool, v
 	e := &Engine{prog: prog, fset: prog.Fset, sol: sol, res: res, cfg: cfg, maxFind: 12, findKey: map[string]bool{},
 		vpPkg: modPath + "/internal/vp", methCache: map[string]*ssa.Function{}, knownOpen: knownOpen}
 	e.deadline = t0.Add(time.Duration(cfg.TimeoutS) * time.Second)
+	// hard watchdog: a solver call that does not come back is abandoned
+	wdDone := make(chan struct{})
+	defer close(wdDone)
+	go func() {
+		select {
+		case <-wdDone:
+		case <-time.After(time.Duration(cfg.TimeoutS+45) * time.Second):
+			res.BudgetHit = true
+			sol.Abandon()
+		}
+	}()
 	defer func() {
 		if r := recover(); r != nil {
 			res.Unsupported[fmt.Sprintf("ENGINE PANIC: %v", r)]++
